@@ -819,7 +819,18 @@ pub fn spell_rust_scalar(n: &crate::model::Node, t: &mut Tape) -> String {
                 if ns != 0 {
                     let f = format!("{ns:09}");
                     s.push('.');
-                    s.push_str(f.trim_end_matches('0'));
+                    match t.weighted(&[4, 1, 2]) {
+                        0 => s.push_str(f.trim_end_matches('0')),
+                        // all nine digits
+                        1 => s.push_str(&f),
+                        _ => {
+                            // more than nine digits: the rest is truncated
+                            s.push_str(&f);
+                            for _ in 0..=t.small(6) {
+                                s.push((b'0' + t.below(10) as u8) as char);
+                            }
+                        }
+                    }
                 }
             }
             match d.offset {
